@@ -157,7 +157,10 @@ def install():
                     # zero-variance variable: correlation undefined. "Zero" is relative to the largest variance: with a root at 0.997 the
                     # Lyapunov solve amplifies rounding by 1/(1-0.997^2), and a variable driven only by a shock with std 0 comes back
                     # with a variance of 1e-13 instead of 0
-                    undefined = ~np.isnan(var) & ~(var > 1e-9 * np.nanmax(np.abs(var), initial=0.0)) if np.isfinite(var).any() else ~np.isnan(var)
+                    # ... and relative to the shock variances: when EVERY stationary variable has zero variance (its shocks have std 0)
+                    # while a unit-root block is driven by stds of 1e6, the largest stationary "variance" is itself rounding noise
+                    shock_var = float(np.max(np.concatenate([su, sw, [0.0]]) ** 2))
+                    undefined = ~np.isnan(var) & ~(var > 1e-9 * max(float(np.nanmax(np.abs(var), initial=0.0)), shock_var)) if np.isfinite(var).any() else ~np.isnan(var)
                     with np.errstate(all="ignore"):
                         ref_sel = [R / np.outer(sd, sd) for R in ref_sel]
                     weight = np.outer(np.nan_to_num(sd), np.nan_to_num(sd))   # correlations are compared in covariance units:
